@@ -177,7 +177,8 @@ Definition ql_needs_quoting (s : ustr) (allow_reserved allow_num : bool) : bool 
     if (c =? g_ql_bad_start) || contains g_ql_bad_sub s then false else
     let isalnum := py_ident_match s || (allow_num && py_num_match s) in
     let low := py_lower s in
-    let is_reserved := negb (in_strs low g_ql_reserved_exempt) && ql_py_reserved low in
+    (* reserved __names__ are never back-quoted: the lexer rejects `__x__` anyway *)
+    let is_reserved := negb (prefix g_ql_exempt_start low && suffix g_ql_exempt_end low) && ql_py_reserved low in
     negb isalnum || (negb allow_reserved && is_reserved)
   end.
 
@@ -188,7 +189,9 @@ Definition ql_quote_ident (force allow_reserved allow_num : bool) (s : ustr) : u
 
 (* ================================================================== Python: edb/edgeql/codegen.py *)
 
-Definition ql_param_to_str (s : ustr) : ustr := 36 :: ql_quote_ident false true true s.
+(* a name that already starts with a backtick is written as it is *)
+Definition ql_param_to_str (s : ustr) : ustr :=
+  if prefix [96] s then 36 :: s else 36 :: ql_quote_ident false true true s.
 
 (* CPython unicode_repr *)
 Definition repr1 (q c : N) : ustr :=
